@@ -21,6 +21,7 @@ func frameGroup(p *core.Prog, rep *core.Report) {
 	cd5Width(p, rep, bs, hdr)
 	cd7LogicalSize(p, rep)
 	wd1WideOffsets(p, rep, bs)
+	cd8CursorInBlock(p, rep, bs)
 	chunkTypeProtocol(p, rep)
 	cd4Framing(p, rep)
 	wr1SingleWrite(p, rep)
@@ -45,6 +46,7 @@ func batchGroup(p *core.Prog, rep *core.Report) {
 	bt1PutType(p, rep)
 	bt2FlushThenStage(p, rep)
 	bt3FlushLoopComplete(p, rep)
+	bt4StagedIndexed(p, rep)
 	ps6SealLast(p, rep)
 	stagedOrder(p, rep)
 }
